@@ -6,10 +6,12 @@ CLAIMS = {
  "C03": ("symbolic execution of the real file writers/readers on images with symbolic bytes vs. independent format decoders; Z3 decides content/checksum assertions", "1 (C03)"),
  "C04": ("symbolic execution of EvalExpression/Operator/Var (LLVM IR) vs. reference evaluator; Z3 decides every path", "1 (C04)"),
  "C05": ("symbolic execution of the real two-pass assembler on directive templates with symbolic operand values; Z3 decides placement/range/frame assertions", "1 (C05)"),
+ "C06": ("symbolic execution of the real assembler on one-instruction programs with the operand symbolic over 2^32 values, incl. self-composition; Z3 decides range/injectivity assertions", "1 (C06)"),
  "C07": ("symbolic execution of disasm_<cpu> -> tokenizer/parse_instruction_<cpu> -> disasm_<cpu> on symbolic bytes; Z3 decides text/length/byte fixpoint assertions", "1 (C07)"),
  "C09": ("differential symbolic execution of the real assembler on a program and its hand expansion with symbolic arguments; Z3 decides image equality", "1 (C09)"),
  "C10": ("symbolic execution of the real conditional-assembly code on templates with symbolic condition operands/operators vs. reference evaluator; Z3 decides branch selection", "1 (C10)"),
  "C11": ("symbolic execution of the real Symbols class on all bounded operation sequences vs. scoping model, plus two-pass templates; Z3 decides value assertions", "1 (C11)"),
+ "C12": ("symbolic execution of naken_asm's real main() on the in-memory file system over solver-enumerated single-character corruptions; Z3 decides status/diagnostic/file agreement", "1 (C12)"),
  "C08": ("symbolic execution of each disasm_<cpu>() over symbolic byte windows; Z3 decides length/termination/bounds/locality assertions", "1 (C08)"),
 }
 NOT_YET = {}
